@@ -581,6 +581,12 @@ def pullAll (q : Query) (choose : List Cursor → Nat) : Nat → List Cursor →
 
 def totalRows (cs : List Cursor) : Nat := (cs.map List.length).sum
 
+/-- `b.RowCount() > 0 && topBC.timestamps[topBC.idx] == b.Timestamps[len(b.Timestamps)-1]` -/
+def batchDup (res : List Row) (top : Row) : Bool :=
+  match res.getLast? with
+  | some l => decide (top.ts = l.ts)
+  | none => false
+
 /-- `queryResult.mergeBatch` (query_batch.go), the columnar counterpart of `merge`: one batch of at most
     `maxRows` rows of one series run. Pinned code (`finishRun = false`): the loop condition
     `b.RowCount() < mergeBatchMaxRows` cuts the batch wherever it fills up; repaired (F57): a full batch is
@@ -591,15 +597,15 @@ def mergeBatchPull (q : Query) (choose : List Cursor → Nat) (maxRows : Nat) (f
   | 0, cs, st => (st.result, cs)
   | fuel + 1, cs, st =>
     if cs = [] then (st.result, cs)
-    else if !finishRun ∧ st.result.length ≥ maxRows then (st.result, cs)
+    else if finishRun = false ∧ st.result.length ≥ maxRows then (st.result, cs)
     else
       let i := choose cs
       match cs[i]? with
       | some (top :: _) =>
         if st.lastSid ≠ 0 ∧ top.sid ≠ st.lastSid then (st.result, cs)
         else
-          let isDup := match st.result.getLast? with | some l => decide (top.ts = l.ts) | none => false
-          if finishRun ∧ st.result.length ≥ maxRows ∧ isDup = false then (st.result, cs)
+          let isDup := batchDup st.result top
+          if finishRun = true ∧ st.result.length ≥ maxRows ∧ isDup = false then (st.result, cs)
           else
             let st1 := { st with lastSid := top.sid }
             let st2 :=
@@ -630,6 +636,20 @@ def queryPartsBatch (cfg : Cfg) (q : Query) (parts : List (List Block)) : List R
 def queryParts (q : Query) (parts : List (List Block)) : List Row :=
   let cs := cursorsOf q parts
   pullAll q (minIdx q) (totalRows cs + 1) cs
+
+/-! ## Liaison-side merge of the data nodes' answers (cluster mode: the parts of a series live on several nodes) -/
+
+/-- order of the merged stream: the sort field (timestamp) in the requested direction; the rows of one timestamp
+    come out of a Go map (`for _, v := range s.uniqueData`) and are printed by series id -/
+def nodeLe (desc : Bool) (a b : Row) : Bool :=
+  if a.ts = b.ts then decide (a.sid ≤ b.sid) else if desc then decide (b.ts < a.ts) else decide (a.ts < b.ts)
+
+/-- `distributedPlan.Execute` (pkg/query/logical/measure/measure_plan_distributed.go): `sort.NewItemIter` over the
+    time-sorted node answers + `sortedMIterator.loadOneGroup`, which keeps per group of equal sort field one entry per
+    `hashDataPoint` = (series, timestamp) and replaces the STORED entry iff the new copy's version is greater
+    (`upsert`). For time-sorted answers all copies of a key are in one group. -/
+def nodeMerge (desc : Bool) (nodes : List (List Row)) : List Row :=
+  (resolve nodes.flatten).mergeSort (fun a b => nodeLe desc a b)
 
 /-! ## Table state and transitions -/
 
@@ -821,6 +841,10 @@ def parseOrder (s : String) : Option Order :=
 /-- `timestamp.Check`: in int64 range (always, here) and millisecond precision. -/
 def tsCheck (ns : Int) : Bool := ns % 1000000 = 0
 
+/-- split at the separator token -/
+def splitAt (sep : String) (toks : List String) : List (List String) :=
+  toks.foldr (fun t acc => if t = sep then [] :: acc else match acc with | g :: gs => (t :: g) :: gs | [] => [[t]]) [[]]
+
 def runOp (cfg : Cfg) (schemas : Array Schema) (t : Table) (op : List String) : Table × String :=
   match op with
   | ["fl", ls] =>
@@ -849,6 +873,15 @@ def runOp (cfg : Cfg) (schemas : Array Schema) (t : Table) (op : List String) : 
           let batchRes := " ".intercalate ("R" :: (t.queryBatch cfg q).map (renderRow sc))
           (t, if batchRes = rowRes then rowRes else rowRes ++ " #B" ++ dropFirst batchRes)
         | _, _, _, _ => (t, "bad-op")
+      | _, _ => (t, "bad-op")
+    | 'n' :: 'm' :: k =>
+      match (String.ofList k).toNat?, rest with
+      | some k, ord :: toks =>
+        let sc := schemas[k]!
+        match (if ord = "ta" then some false else if ord = "td" then some true else none),
+              (splitAt "|" toks).mapM (fun g => g.mapM (parseRow sc)) with
+        | some desc, some nodes => (t, " ".intercalate ("R" :: (nodeMerge desc nodes).map (renderRow sc)))
+        | _, _ => (t, "bad-op")
       | _, _ => (t, "bad-op")
     | c :: k =>
       if c = 'b' ∨ c = 'w' then
